@@ -146,6 +146,15 @@ reg("C01", "model_checking",
     "The reference NCP (mc/env/ref_endpoint.py) is first validated against a second instance of itself under the same explorer and oracle; its retransmission timer is untimed; lines are FIFO.",
     "DESIGN.md section 3 C01")
 
+reg("C09", "fault_enumeration",
+    "enumeration of every single (thorough: double) line fault at every wire frame of the full real bring-up against a framing-aware simulated NCP, per NCP version / path / start-up variant",
+    "Whole real stack (EZSP.connect -> startup_reset -> write_config, then stop + second startup_reset + write_config) on a hand-stepped loop; NCP versions 4, 7, 8, 14, 15 (thorough 4..16, 255) x "
+    "{serial, socket://} x spontaneous start-up RSTACK {absent, early, late}; one execution per (wire frame, loss / detectable corruption / duplication), about 9 000 quick. Judged: first host frame "
+    "is the RST unless the start-up reset was seen on a socket path, first EZSP frame after every reset is the legacy version(4), negotiated version == NCP's, own tables (v14 above 14), confirming "
+    "query in the new layout, no wrongly framed request ever reaches the NCP, write_config completes, DATA/ACK faults are absorbed.",
+    "NCP = reference ASH endpoint + EZSP simulator answering only correctly framed requests; a damaged RST/RSTACK or a second in-flight RSTACK may end in TimeoutError (inherent to ASH).",
+    "DESIGN.md section 3 C09")
+
 ALL = ["C%02d" % i for i in range(1, 21)]
 
 
